@@ -739,7 +739,7 @@ func c03Codes(c *Ctx) {
 	}
 	c.R.Extra["error_sites_per_class"] = perClass
 	c.R.Min("R-code-class", 25)
-	for cl, min := range map[string]int{"params": 15, "dispatch-default": 2, "handler-error": 5, "decode": 3} {
+	for cl, min := range map[string]int{"params": 8, "dispatch-default": 1, "handler-error": 2, "decode": 2} {
 		if perClass[cl] < min {
 			c.R.Break("R-code-class: only %d sites of class %s recognised (expected >= %d)", perClass[cl], cl, min)
 		}
@@ -1238,7 +1238,7 @@ func c03Decode(c *Ctx) {
 				}
 			}
 			// client-side code reachable from servers? restrict to functions whose receiver/params are server-side: skip files of clients
-			if strings.Contains(c.P.File(fn.Pos()), "client") || strings.HasPrefix(c.P.File(fn.Pos()), "transport_") {
+			if clientSide(c, fn) {
 				return
 			}
 			key := "decode " + target + " in " + fname(fn)
